@@ -25,6 +25,25 @@ func main() { common.Main("C02", run) }
 
 type st struct{ same, differs, rejected, notclean, known int }
 
+func sameMultiset(a, b []string) bool {
+	if len(a) != len(b) {
+		return false
+	}
+	m := map[string]int{}
+	for _, x := range a {
+		m[x]++
+	}
+	for _, x := range b {
+		m[x]--
+	}
+	for _, v := range m {
+		if v != 0 {
+			return false
+		}
+	}
+	return true
+}
+
 func one(c *Ctx, src []byte, toModel bool, s *st) {
 	c.Eval()
 	prog, ok := ParseClean(src)
@@ -53,6 +72,11 @@ func one(c *Ctx, src []byte, toModel bool, s *st) {
 				s.rejected++
 			}
 			sig := RTSig(prog, mode, res[i])
+			// none of the recorded formatter findings changes the TEXT of a comment: in normal mode (comments are kept) the
+			// comment literals of the source and of the printed text must be the same sequence up to order
+			if !compact && strings.HasPrefix(sig, "roundtrip:") && !sameMultiset(CommentTexts(src), CommentTexts(txts[i])) {
+				sig = "roundtrip-unclassified:normal:comment-text-changed"
+			}
 			if strings.HasPrefix(sig, "roundtrip:") {
 				s.known++
 			}
